@@ -106,7 +106,15 @@ def run(ctx, H):
                 body = ctx.rng.choice([body[:-1], body + "]", "", "{", "nul", body.replace(":", "=", 1), "\ufeff" + body, "[1,]"])   # malformed
             elif r < 0.22:
                 ct = ctx.rng.choice([None, "text/plain", "application/x-www-form-urlencoded", "application/jsonx", "application/json; charset=utf-8", "application/vnd.api+json"])
-            reqs.append({"tid": e.tid, "body": body, "content_type": ct, "query": query_of(p, ctx.rng)})
+            cfg = None
+            if ctx.rng.random() < 0.3:
+                # an application-level web::JsonConfig (payload limit, accepted content type, optional content type, custom error handler)
+                cfg = ctx.rng.choice(["limit16", "text_plain", "ct_optional", "handler409"])
+                if cfg == "text_plain" and ctx.rng.random() < 0.6:
+                    ct = "text/plain"
+                if cfg == "ct_optional" and ctx.rng.random() < 0.6:
+                    ct = None
+            reqs.append({"tid": e.tid, "body": body, "content_type": ct, "query": query_of(p, ctx.rng), "cfg": cfg})
             meta.append(e)
     obs = C.run_harness(binary, reqs)
     # float texts for the documents
@@ -155,9 +163,9 @@ def run(ctx, H):
         k = name.split()[0] + ":" + ("fw-rejects" if "rej" in obs[i][fw] else ("ok" if "ok" in obs[i][ex] else "deserr-rejects"))
         classes[k] = classes.get(k, 0) + 1
     ctx.coverage.update({
-        "evaluations": len(rows), "distinct_nontrivial": len({(r["tid"], r["body"], r["content_type"], r["query"]) for r in reqs}),
+        "evaluations": len(rows), "distinct_nontrivial": len({(r["tid"], r["body"], r["content_type"], r["query"], r["cfg"]) for r in reqs}),
         "rule": "%d catalogue types (all generic in the error type) x requests generated from mutated payloads: valid / ill-typed JSON bodies, malformed bodies, right / wrong / missing "
-                "content types, query strings derived from the payload or malformed; four extractor entry points per request (AwebJson, AwebQueryParameter::from_query and as FromRequest, "
+                "content types, with or without an application-level web::JsonConfig (payload limit, accepted content type, optional content type, custom error handler), query strings derived from the payload or malformed; four extractor entry points per request (AwebJson, AwebQueryParameter::from_query and as FromRequest, "
                 "AxumJson), each compared with the framework's own extractor on an identical request followed by the model of deserialize + JsonError; non-trivial = distinct request" % len(sel),
         "outcome_classes": classes,
         "samples": [dict(reqs[k], framework=obs[k]["fw_axum"], extractor=obs[k]["ex_axum"]) for k in (0, len(reqs) // 2)],
